@@ -145,12 +145,15 @@ class LineWorld(object):
                 self.sched.spawn(nm, wbody)
                 continue
 
-            def body():
+            def body(nm=nm):
                 sys.settrace(self.tracer)
                 if self.opcode:
                     sys.settrace(self.tracer)      # CPython 3.12: f_trace_opcodes is honoured only after the trace function was installed again
                 try:
-                    self.device._open(b'shell:x', self.tt, 1, None)
+                    if nm == 'E':
+                        self.device._open(b'shell:x', self.tt, None, 5)      # a caller's mistake: no read timeout next to a whole-command limit (not comparable)
+                    else:
+                        self.device._open(b'shell:x', self.tt, 1, None)
                 except Stop:
                     pass
                 except sched.Abort:
@@ -337,6 +340,17 @@ def body(ctx):
         traces += tr
         scheds += sc
         labels += [('3 threads random', start)] * len(tr)
+    # two opens next to a call with unusable arguments (it raises inside _open): whatever that call does to the counter on its way out,
+    # the ids of the others stay unique
+    for start in (0, 5, M32 - 2):
+        tr, sc = dfs_real(ctx, ['A', 'B', 'E'], start, limit=80 if ctx.quick else 2000, rng=rng)
+        traces += tr
+        scheds += sc
+        labels += [('2 threads opening + 1 call with unusable timeouts, random', start)] * len(tr)
+        tr, sc = dfs_real(ctx, ['A', 'E', 'B', 'C'], start, limit=40 if ctx.quick else 1000, rng=rng)
+        traces += tr
+        scheds += sc
+        labels += [('3 threads opening + 1 call with unusable timeouts, random', start)] * len(tr)
     # two opens and a reconnect of the same object by a third thread, every line-level schedule
     for start, wc in ((0, False), (M32 - 2, False), (5, True)):
         tr, sc = dfs_real(ctx, ['A', 'B', 'W'], start, w_closes=wc)
@@ -366,7 +380,7 @@ def body(ctx):
     ctx.add_tlc(r, 'TraceEnv over %d line-level schedules of _open' % len(traces))
     okn = 0
     for (i, l, v) in ver:
-        raised = [e for e in traces[i] if e['ev'] == 'open_raised']
+        raised = [e for e in traces[i] if e['ev'] == 'open_raised' and not (e.get('t') == 'E' and e.get('cls') == 'TypeError')]      # (thread E's own mistake raises, as it must)
         if raised and v == 'ok':
             # the allocated id could not even be put on the wire (e.g. 2^32 does not fit the header)
             ctx.violation('C14.IdRange', dict(kind='line-schedule', what=labels[i][0], counter_start=labels[i][1], schedule=scheds[i], raised=raised))
@@ -410,6 +424,23 @@ def body(ctx):
                 ctx.count(traces=1)
                 ctx.extra.setdefault('verdicts_of_write_fault_schedules', {}).setdefault(v, 0)
                 ctx.extra['verdicts_of_write_fault_schedules'][v] += 1
+    # an OPEN the device refuses, overlapped by other threads' opens; the refused thread and a third one open again while the second
+    # one's stream may still be live: whatever the refusal does to the counter, no id of a live stream is handed out again
+    for mode in ('sync', 'async'):
+        prog, rep = {'t1': tour.REFUSED, 't2': ['shell'], 't3': ['shell']}, {'t1': [[]], 't2': [[1, 2]], 't3': [[1]]}
+        res = []
+        for k in range(60 if ctx.quick else 1500):
+            res += tour.explore(mode, prog, rep, 1, random.Random(ctx.seed * 733 + k), reps={'t1': 2, 't2': 1, 't3': 2})
+        v2, r2 = tlc.validate_traces('TraceEnv', [t for t, _ in res])
+        ctx.add_tlc(r2, 'TraceEnv over %d %s schedules with a refused OPEN overlapped by other opens' % (len(res), mode))
+        for (i, l, v) in v2:
+            if v.startswith('C14.') or v == 'C04.FreshId':
+                ctx.violation(v if v.startswith('C14.') else 'C14.UniqueLiveIds', dict(kind='schedule-with-refused-open', mode=mode, clause=v, schedule=res[i][1]['schedule'],
+                                                                                      opens=[wire.unlimbs(e['a0']) for e in res[i][0] if e['ev'] == 'tx' and e['cmd'] == 'OPEN']))
+            else:
+                ctx.count(traces=1)
+                ctx.extra.setdefault('verdicts_of_refused_open_schedules', {}).setdefault(v, 0)
+                ctx.extra['verdicts_of_refused_open_schedules'][v] += 1
     # an OPEN that did reach the device although its write reported a failure: the next commands must not reuse its id
     from . import c01 as c01_
     from .. import scen as scen_
